@@ -126,6 +126,8 @@ class Forwarder:
         info['reply'] = kind
         loop = asyncio.get_running_loop()
         delay = self.rng.choice([0, 0, 0.0005, 0.003, 0.02])
+        if kind == 'silence':
+            delay = 0.999       # never answered: the command is in flight until the application gives it up (command lifetime 1000 ms)
         loop.call_later(delay, self.answer, info, kind)
 
     def answer(self, info, kind):
@@ -302,10 +304,18 @@ def run_exchange(ctx, rng, fe, ops, script, jitter=False):
         async def one(verb, prefix):
             # the caller's own list object (a NonStrictName): it is edited again as soon as the calls have been started
             arg = [bytes(c) for c in prefix] if reuse_lists else prefix
+            if not reuse_lists and rng.random() < 0.25:
+                # a NonStrictName may be "a list or iterator of Components": given as a one-shot iterator / generator
+                arg = iter(list(prefix)) if rng.random() < 0.5 else (c for c in list(prefix))
+                ctx.event('prefix-given-as-a-one-shot-iterator')
             args_given.append(arg)
             try:
                 if verb == 'register':
-                    r = await (the_app.register(arg) if fe == 'v2' else the_app.register(arg, None))
+                    fn_ = None
+                    if fe == 'v1' and sum(1 for v_, p_ in ops if p_ == prefix) == 1 and rng.random() < 0.5:
+                        fn_ = lambda *a_, **k_: None        # noqa  (legacy register() attaches the handler it is given, then announces the prefix)
+                        ctx.event('legacy-register-with-a-handler')
+                    r = await (the_app.register(arg) if fe == 'v2' else the_app.register(arg, fn_))
                 else:
                     r = await the_app.unregister(arg)
                 return ('ret', r)
@@ -594,7 +604,9 @@ def check_cancelled_call(ctx, rng):
             if names.count((C(b'later'),)) != 2:
                 ctx.report(f'command-count:{fe}:after-a-given-up-call', f'the two later calls produced {names.count((C(b"later"),))} commands', w)
             if res['fw'].max_inflight > 1 and when != 'waiting-for-the-answer':
-                pass        # (a command whose caller has gone is no longer "in flight" for the application: not judged)
+                # the given-up call was still queued behind the first (unanswered) command: giving it up frees nothing, the later calls
+                # wait until the first one is over
+                ctx.report(f'commands-not-one-at-a-time:{fe}:after-a-given-up-call', f'{res["fw"].max_inflight} commands in flight at once after a call was given up while {when}', w)
 
 
 def check_parse_response(ctx, rng):
@@ -726,5 +738,6 @@ def run(ctx):
         ctx.need_event(k)
     ctx.need_event('exchange-beside-another-application-of-the-process')
     ctx.need_event('exchange-under-a-coarse-clock')
+    ctx.need_event('prefix-given-as-a-one-shot-iterator')
     ctx.assumptions = ['a 200 reply whose signature is bad counts as success in the current front-end (its commands use pass_all) and as failure in the legacy one',
                        'jitter clock: non-decreasing, 0..0.6 ms per reading (a legal wall clock); coarse clock: advances in steps of 1/64 s']
